@@ -178,9 +178,15 @@ def _lay_down(sim, path, data, unlink_first):
                 k = max(1, min(len(data) - 1, int(len(data) * k)))
             f.write(data[:k])
             f.flush()
+            wf = getattr(sim, "write_fault", None)
+            if wf is not None:
+                wf(path)            # may raise: the storage gave out in the middle of the file (a torn tile stays behind)
             sim.yield_point("write.partial %s" % rel)
             f.write(data[k:])
         else:
+            wf = getattr(sim, "write_fault", None)
+            if wf is not None:
+                wf(path)
             f.write(data)
     sim.log(current_task().name, "write.done %s" % rel)
 
